@@ -1,0 +1,78 @@
+//go:build verif
+
+// Contracts for govc (/verif): C12 "A CoSi nonce never answers two different challenges", kernel half: which nonce
+// handle is bound to which snapshot (kernel/cosi.go: cosiRetrieveRandom / retainUsedCosiNonce). The single-use state
+// machine of the handle itself is proved in crypto/zz_contracts_c12_verif.go. Comment-only file.
+
+package kernel
+
+//@ -- representation invariant of the retained-nonce table: the order list has at most 131072 entries, lists only
+//@ -- snapshots that are bound to a non-nil handle, and lists no snapshot twice. Established by buildChain (empty map, nil
+//@ -- list), preserved by retainUsedCosiNonce (the only writer of both fields).
+//@ spec UsedOrderInv(chain *Chain) bool = len(chain.usedRandomsOrder) <= 131072 &&
+//@     (chain.UsedRandoms == nil ==> len(chain.usedRandomsOrder) == 0) &&
+//@     (forall j int :: 0 <= j && j < len(chain.usedRandomsOrder) ==>
+//@         has(chain.UsedRandoms, chain.usedRandomsOrder[j]) && chain.UsedRandoms[chain.usedRandomsOrder[j]] != nil) &&
+//@     (forall i, j int :: 0 <= i && i < j && j < len(chain.usedRandomsOrder) ==> chain.usedRandomsOrder[i] != chain.usedRandomsOrder[j])
+
+//@ -- two-state helpers for retainUsedCosiNonce: the snapshot is new (it is appended to the order list) / the list was full
+//@ -- (its oldest entry is evicted)
+//@ spec RetainAppends(chain *Chain, snapshot crypto.Hash) bool =
+//@     old(chain.UsedRandoms) == nil || !old(has(chain.UsedRandoms, snapshot)) || old(chain.UsedRandoms[snapshot]) == nil
+//@ spec RetainEvicts(chain *Chain, snapshot crypto.Hash) bool =
+//@     RetainAppends(chain, snapshot) && old(len(chain.usedRandomsOrder)) == 131072
+
+//@ -- retainUsedCosiNonce binds the handle to the snapshot. No other snapshot gets a new or a different binding (an older
+//@ -- binding may be evicted when more than 131072 are retained); the snapshot just bound is never the one evicted.
+//@ func (chain *Chain) retainUsedCosiNonce
+//@   property C12
+//@   requires chain != nil && nonce != nil && UsedOrderInv(chain)
+//@   modifies chain.UsedRandoms, chain.UsedRandoms[..], chain.usedRandomsOrder, chain.usedRandomsOrder[len..cap]
+//@   hint return [len] len(chain.usedRandomsOrder) == old(len(chain.usedRandomsOrder)) + (RetainAppends(chain, snapshot) ? 1 : 0) - (RetainEvicts(chain, snapshot) ? 1 : 0)
+//@   hint return [shift] forall j int :: 0 <= j && j + (RetainEvicts(chain, snapshot) ? 1 : 0) < old(len(chain.usedRandomsOrder)) ==>
+//@       chain.usedRandomsOrder[j] == old(chain.usedRandomsOrder[j + (RetainEvicts(chain, snapshot) ? 1 : 0)])
+//@   hint return [last] RetainAppends(chain, snapshot) ==> len(chain.usedRandomsOrder) >= 1 && chain.usedRandomsOrder[len(chain.usedRandomsOrder) - 1] == snapshot
+//@   hint return [map] forall k crypto.Hash :: has(chain.UsedRandoms, k) <==>
+//@       (k == snapshot || (old(chain.UsedRandoms) != nil && old(has(chain.UsedRandoms, k)) && !(RetainEvicts(chain, snapshot) && k == old(chain.usedRandomsOrder[0]))))
+//@   hint return [vals] forall k crypto.Hash :: k != snapshot && has(chain.UsedRandoms, k) ==> chain.UsedRandoms[k] == old(chain.UsedRandoms[k])
+//@   ensures [inv] UsedOrderInv(chain)
+//@   ensures [bound] chain.UsedRandoms != nil && has(chain.UsedRandoms, snapshot) && chain.UsedRandoms[snapshot] == nonce
+//@   ensures [samemap] old(chain.UsedRandoms) != nil ==> chain.UsedRandoms == old(chain.UsedRandoms)
+//@   ensures [others] forall k crypto.Hash :: k != snapshot && has(chain.UsedRandoms, k) ==>
+//@       old(chain.UsedRandoms) != nil && old(has(chain.UsedRandoms, k)) && chain.UsedRandoms[k] == old(chain.UsedRandoms[k])
+
+//@ -- the snapshot already has a retained handle whose commitment is the announced challenge commitment
+//@ spec RetainedMatch(chain *Chain, snap crypto.Hash, challenge *crypto.Key) bool =
+//@     old(chain.UsedRandoms != nil && has(chain.UsedRandoms, snap) && chain.UsedRandoms[snap] != nil &&
+//@         chain.UsedRandoms[snap].state.commitment == *challenge)
+//@ -- the pool of unused nonces has a handle under the announced commitment
+//@ spec PoolMatch(chain *Chain, challenge *crypto.Key) bool =
+//@     old(chain.CosiRandoms != nil && has(chain.CosiRandoms, *challenge) && chain.CosiRandoms[*challenge] != nil)
+//@ spec RetainedSame(chain *Chain) bool = chain.UsedRandoms == old(chain.UsedRandoms) && chain.usedRandomsOrder == old(chain.usedRandomsOrder) &&
+//@     (forall k crypto.Hash :: has(chain.UsedRandoms, k) == old(has(chain.UsedRandoms, k)) && chain.UsedRandoms[k] == old(chain.UsedRandoms[k]))
+//@ spec PoolSame(chain *Chain) bool = chain.CosiRandoms == old(chain.CosiRandoms) &&
+//@     (forall k crypto.Key :: has(chain.CosiRandoms, k) == old(has(chain.CosiRandoms, k)) && chain.CosiRandoms[k] == old(chain.CosiRandoms[k]))
+
+//@ -- cosiRetrieveRandom (the node answers a full challenge for snapshot `snap` announced with commitment *challenge):
+//@ --  * a snapshot that already has a retained handle with this commitment gets THAT handle again (so a repeated or a
+//@ --    changed challenge for the same snapshot meets the single-use state of crypto.nonce: cached response or reuse error);
+//@ --  * otherwise a handle is taken from the pool of unused nonces under exactly this commitment, bound to the snapshot
+//@ --    and REMOVED from the pool in the same call, so no pool handle is ever handed out for two snapshots;
+//@ --  * otherwise nil, nothing changes.
+//@ -- Whatever is returned is the handle bound to the snapshot afterwards.
+//@ func (chain *Chain) cosiRetrieveRandom
+//@   property C12
+//@   requires chain != nil && chain.node != nil && challenge != nil && UsedOrderInv(chain)
+//@ -- Go typing: a *crypto.Key never points into the backing array of a []crypto.Hash (the model keeps one byte heap for both)
+//@   requires [typing] !inblock(challenge, chain.usedRandomsOrder)
+//@ -- every retained handle was built by crypto.newCosiNonce (handle.state != nil)
+//@   requires [handles] chain.UsedRandoms != nil && has(chain.UsedRandoms, snap) && chain.UsedRandoms[snap] != nil ==> chain.UsedRandoms[snap].state != nil
+//@   panics when chain.ChainId == chain.node.IdForNetwork || chain.ChainId != peerId
+//@   modifies chain.UsedRandoms, chain.UsedRandoms[..], chain.usedRandomsOrder, chain.usedRandomsOrder[len..cap], chain.CosiRandoms[..]
+//@   ensures [inv] UsedOrderInv(chain)
+//@   ensures [bound] result != nil ==> chain.UsedRandoms != nil && has(chain.UsedRandoms, snap) && chain.UsedRandoms[snap] == result
+//@   ensures [retry] RetainedMatch(chain, snap, challenge) ==> result == old(chain.UsedRandoms[snap]) && RetainedSame(chain) && PoolSame(chain)
+//@   ensures [pool] !RetainedMatch(chain, snap, challenge) && PoolMatch(chain, challenge) ==>
+//@       result == old(chain.CosiRandoms[*challenge]) && !has(chain.CosiRandoms, old(*challenge)) && chain.CosiRandoms == old(chain.CosiRandoms) &&
+//@       (forall k crypto.Key :: k != old(*challenge) ==> has(chain.CosiRandoms, k) == old(has(chain.CosiRandoms, k)) && chain.CosiRandoms[k] == old(chain.CosiRandoms[k]))
+//@   ensures [none] !RetainedMatch(chain, snap, challenge) && !PoolMatch(chain, challenge) ==> result == nil && RetainedSame(chain) && PoolSame(chain)
